@@ -32,7 +32,10 @@ def run(ctx):
     ctx.cov["keccak_rows_by_kind"] = kinds
     ctx.samples = [{k: (v if len(str(v)) < 90 else str(v)[:80] + "...") for k, v in r.items() if k != "mon"} for r in rows[:2] + krows[:1]]
     monitor_rows(ctx, allrows, lambda r, m: "mon:" + m,
-                 lambda r, m: ({"vaa": {k: r[k] for k in r if k not in ("mon",)}, "monitor": m} if r.get("k") == "c04" else {"keccak_input": r["in"], "go_output": r["out"], "monitor": m}))
+                 lambda r, m: ({"vaa": {k: r[k] for k in r if k not in ("mon",)}, "monitor": m} if r.get("k") == "c04" else
+                              {"concurrent_callers": r.get("workers"), "calls": r.get("calls"), "monitor": m} if r.get("k") == "conc" else
+                              {"keccak_input": r["in"], "go_output": r["out"], "monitor": m}))
+    ctx.cov["concurrent_digest_calls"] = sum(r.get("calls", 0) for r in allrows if r.get("k") == "conc")
     # model vs implementation: body and marshal computed by the Gallina model on the same field values, and the digest computed by the
     # Gallina Keccak-256 (lib/Keccak.v) INSIDE Coq: digest keccak256 v must be the bytes the real (*VAA).SigningMsg() returned
     okdef = ("Definition ok (c : vaa * Z * Z * list byte) : bool := let '(v, b, m, d) := c in "
